@@ -94,6 +94,11 @@ def flags(facts, cls):
                     bad_flag.add(m)
                 expr(u.get("rhs"), known)
                 return
+        if isinstance(u, dict) and u.get("k") == "OpCall" and u.get("op") == "=" and len(u.get("args", [])) == 2:
+            m = _member_of_this(u["args"][0], names)
+            if m is not None and m not in cand:
+                expr(u["args"][1], known)       # a class-type member assigned as a whole: a store, not a read
+                return
         m = _member_of_this(u, names) if isinstance(u, dict) else None
         if m is not None:
             if m in cand:
